@@ -69,6 +69,13 @@ def run(tier="quick", seed=0, arg=None):
             if op == "~=" and "." not in v:
                 continue
             simple.append(f"{op}{v}")
+    for a, b2 in (("3.6.0", "3.7.0"), ("3.6", "3.7"), ("3.6", "3.7.0"), ("3.6.0", "3.7"), ("3.8", "3.10"), ("3", "4")):
+        for hi in ("<", "<="):
+            for lo in (">=", ">"):
+                simple.append(f"{hi}{a}||{lo}{b2}")
+        for lo in (">=", ">"):
+            for hi in ("<", "<="):
+                simple.append(f"{lo}{a},{hi}{b2}")
     simple += ["==3.*", "!=3.*", "==3.8.*", "!=3.10.*", "==2.*", ">=3.8,<4.0", ">=3.8,<3.9", "<3.8||>=3.9", "<3||>=4", ">=3.8.0,<3.9.0", "", "<empty>",
                ">=3.7,<3.8||>=3.9", "~=3.8.0", "~=3.10.2"]
     for name, values in (("python_version", short), ("python_full_version", full)):
